@@ -10,7 +10,7 @@ RULE = ("on the state graph of C11 with signature support: for EVERY reachable k
         "fixed pattern using only free slots (each free slot absent / v1 / v2) and EVERY message of {0,1,r-1,r,r+1,2^256-1,filler}: sign and sign_precomputed "
         "(and attrs=NULL for the key's own pattern) must verify under verify and verify_precomputed; negative space, each alone: a message different mod r, m+r "
         "(must verify alike), EVERY other list of the alphabet (per slot absent / v1 / v2 / v1 with omitFromKeys set - the flag is not part of the statement, the id is), "
-        "the signed list with its flags set differently (must verify), lists that set a hidden or differently-fixed slot, a0+G1, a1+G2, and a signature made by a key of "
+        "the signed list with its flags set differently (must verify), lists that set a hidden or differently-fixed slot, a0+G1, a1+G2, (-a0,-a1), (2a0,2a1), and a signature made by a key of "
         "another pattern; LONG lists: l = 65 and list lengths 5, 9, 17, 33, 65 (every 2^k and 2^k+1 up to 65 in the thorough tier): sign / verify both ways, one "
         "altered or dropped entry must fail. state = (key state, E, message); non-trivial = message > 1")
 ASSUMPTIONS = ["messages are scalars in Z_r: m and m+r are the same message", "a list entry with value 0 mod r is the same as an absent entry"]
@@ -148,6 +148,18 @@ def eval_case(case):
             ffi.ctypes.memmove(ffi.ctypes.byref(s2, o), new, size)
             if verify(W, pairs, s2, m):
                 msgs.append("signature with %s altered still verifies" % comp)
+        # both components altered TOGETHER: negated (the verification ratio becomes its inverse, which shares half of its coefficients
+        # with the right value) and doubled (the ratio is squared)
+        for how, fn in (("negated", "negate"), ("doubled", "double")):
+            s2 = L.buf(N.sz["wk_signature"], sig.raw)
+            for comp, g in (("a0", 1), ("a1", 2)):
+                o = N.off["wk_signature." + comp]
+                size = N.sz["g%d" % g]
+                new = L.out("embedded_pairing_bls12_381_g%d_%s" % (g, fn), size, sig.raw[o:o + size])
+                ffi.ctypes.memmove(ffi.ctypes.byref(s2, o), new, size)
+            for vm in ("direct", "pre"):
+                if verify(W, pairs, s2, m, vm) if vm == "pre" else verify(W, pairs, s2, m):
+                    msgs.append("signature with a0 and a1 both %s still verifies (%s)" % (how, vm))
     for bad in case.get("incompatible", []):
         # lists the key cannot sign for: a hidden slot set, or a fixed slot with another value
         p2 = resolve(bad, W.vals)
